@@ -1,3 +1,4 @@
+import MpsProps.Anchors.C18
 import MpsProofs.Pool
 import MpsGen.Pool
 /-
